@@ -35,7 +35,7 @@ fn write_cases(prop: &str, cases: &[GenCase], outdir: &str, module: &str) {
         }
     }
     let budget = 250_000usize;
-    let slow = cases.iter().any(|c| c.coq.starts_with("GLookup") || c.coq.starts_with("GBoundary") || c.coq.starts_with("GCentre"));
+    let slow = cases.iter().any(|c| c.coq.starts_with("GLookup") || c.coq.starts_with("GRing") || c.coq.starts_with("GBoundary") || c.coq.starts_with("GCentre"));
     let max_cases = if slow { 6usize } else if module == "Corr.GeoCases" { 120usize } else { 1_000_000 };
     let mut shards: Vec<(String, usize, usize)> = Vec::new();
     let mut cur: Vec<String> = Vec::new();
